@@ -253,6 +253,14 @@ SPECS["C08"] = node_spec(
     "DESIGN.md section 7, C08",
     "Theorems: Props/C08.v over M/Raft.v (ReadOnly, step), M/RawNode.v. Tie: pointwise differential, projection read-only state + read states + results + heartbeat/read traffic.")
 
+SPECS["C10"] = node_spec(
+    "C10", ["progress", "msgs.repl", "msgs.resp", "timers", "hard", "result"], "progress",
+    "Props/C10.v (35 pinned theorems): the deterministic content of progress, for every node state and message: a heartbeat response un-pauses the peer, frees one in-flight slot of a full window and makes the leader send (the exact append or snapshot) in the same step; a rejection repairs next_idx (exact formula; strictly decreasing towards matched+1) and re-probes at once; a successful acknowledgement raises matched and moves Probe to Replicate / Snapshot to Probe; snapshot status reports and unreachable reports leave the Snapshot / Replicate state: no Progress state is absorbing; the election timer fires hup after exactly max(1, randomized_timeout - elapsed) ticks and hup on a promotable non-leader with no unapplied membership change always campaigns; at the election timeout a check-quorum leader steps down iff the recently active set is not a quorum; a leader queues exactly one heartbeat per peer every heartbeat_timeout ticks; and a convergence theorem for one leader and one follower of the same term under a lock-step round (deliver, reply, tick): within (heartbeat_timeout+2)*((last-matched)*(last+3)+last+2) rounds without a panic the follower's log equals the leader's and matched = last index, from any Probe/Replicate progress state (paused or not, any window contents) and any divergent follower tail.",
+    "the cluster-level liveness statement itself (eventually exactly one leader - depends on the random timeouts; whole-cluster convergence; a new proposal applied everywhere) is not a theorem: it is only exercised by the progress monitor (fair fault-free suffix after a random fault prefix) in the search. The pair theorem excludes batching, check_quorum, read-index traffic, compaction past matched, a pending window shrink and proposals during the run. KNOWN FINDING (liveness, open): a follower's request_snapshot above the leader's commit index can stall a group that needs that follower for its quorum (known_findings.txt).",
+    "DESIGN.md section 7, C10",
+    "Theorems: Props/C10.v over M/Raft.v, M/Progress.v, M/Inflights.v. Tie: pointwise differential, projection progress + replication traffic + timers + hard state + results. The progress monitor runs on every check (known finding reported as KNOWN-FINDING).")
+SPECS["C10"]["always_monitor"] = True
+
 SPECS["C09"] = node_spec(
     "C09", ["conf", "hard", "log", "result"], "conf_change",
     "Props/C09.v (46 pinned theorems, every node state and input): the proposal filter is characterised completely (a conf-change entry is kept iff nothing is pending and it fits the joint state, otherwise replaced by an empty normal entry; a decode error drops the proposal; at most one survives a proposal); the leader invariant 'every conf-change entry above applied is at or below pending_conf_index' is established by become_leader and preserved by every function of the Raft and RawNode models; no node campaigns (timeout, MsgHup, MsgTimeoutNow) while has_unapplied_conf_changes answers true, and a (pre-)candidate that learns a committed conf change through vote traffic steps down; a non-promotable node never campaigns by tick or MsgTimeoutNow and promotable = voter after every configuration switch; a rejected apply_conf_change leaves the node untouched and a successful one yields exactly the ConfChange model's configuration (C12); auto-leave is proposed once.",
